@@ -175,7 +175,7 @@ func (r *Run) flush() {
 		case "sched":
 			r.Lines = append(r.Lines, "SCHED\t"+e.Text)
 		case "site":
-			r.Lines = append(r.Lines, "SITE\t"+e.Subj+"\t"+e.C+"\t"+AbsRID(e.Text))
+			r.Lines = append(r.Lines, "SITE\t"+e.Subj+"\t"+e.C+"\t"+AbsRID(strings.TrimSuffix(e.Text, "?")))
 		case "error":
 			r.Lines = append(r.Lines, "ERRLOG\t"+fmt.Sprintf("%x", r.W.Anon(e.Text)))
 		case "evict":
